@@ -36,6 +36,7 @@ class History:
         self.s = sched
         self.initial_version = mdib.mdib_version
         self.hist = {mdib.mdib_version: canon.snap(mdib)}
+        self.hist_seq = (mdib.sequence_id, mdib.instance_id)
         self.results = {}
         self.commits = []  # (version, task name, empty?)
         self.empty_commits = 0
@@ -44,6 +45,7 @@ class History:
         self.on_commit = on_commit
         self.last_version = mdib.mdib_version
         self.raw_results = {}
+        self.epochs = []  # archived (sequence_id, hist dict) of earlier provider incarnations
         if front:
             # run before the provider's own observer (which sends the reports): the history entry of a version must
             # exist before anybody can receive a report of that version
@@ -51,6 +53,14 @@ class History:
             ov._observers.insert(0, self._observer)
         else:
             op.strongbind(mdib, transaction=self._observer)
+
+    def new_epoch(self):
+        """the provider 'restarted' (new SequenceId / InstanceId, possibly reset MdibVersion): archive the history"""
+        self.epochs.append((self.hist_seq, self.hist))
+        self.hist_seq = (self.mdib.sequence_id, self.mdib.instance_id)
+        self.hist = {self.mdib.mdib_version: canon.snap(self.mdib)}
+        self.last_version = self.mdib.mdib_version
+        self.initial_version = self.mdib.mdib_version
 
     def _observer(self, tr):
         if tr is None:
